@@ -188,6 +188,7 @@ def prepare(rig, kind):
     else:
         chip = rig.chip
         chip.rf_rsp = bytes(rf_rsp)
+        chip.air = None                 # (C14 sets these for the CRC ownership cases)
         if rig.driver == "rcs380":
             chip.tg_head = b"\x0c\x00\x03" if tgt.brty == "212F" else b"\x0b\x00\x03"
         else:
